@@ -115,6 +115,15 @@ def wv(binary, args, timeout=3600):
     r = run([binary] + [str(a) for a in args], timeout=timeout)
     if r.returncode != 0:
         sys.stderr.write(r.stderr[-3000:])
+        # a panic of the code under test in a place the harness does not guard is data, not a machinery failure
+        m = re.search(r"panicked at ([^\n]*weechess-(?:core|engine|cli)[^\n]*)\n([^\n]*)", r.stderr) or \
+            (re.search(r"wv-panic at ([^|\n]*weechess-(?:core|engine|cli)[^|\n]*)\| ([^\n]*)", r.stderr) if r.returncode == 101 else None)
+        if m and _CURRENT:
+            chk = _CURRENT[-1]
+            chk.violation("|".join([chk.pid, "panic", m.group(1)[:120]]), "the code under test panicked while it was exercised for this property (wv %s): %s: %s" % (args[0], m.group(1)[:160], m.group(2)[:200]),
+                          {"harness_command": [str(a) for a in args], "stderr_tail": r.stderr[-1500:]})
+            chk.notes.append("check incomplete: harness command stopped by a panic of the code under test")
+            chk.finish()
         tool_error("harness command failed: wv " + " ".join(str(a) for a in args[:6]))
     return r.stdout
 
